@@ -158,6 +158,10 @@ func requestIDKey(id interface{}) string {
 		return requestIDKey(float64(v))
 	case json.Number:
 		return v.String()
+	case string:
+		// Quoted, so that the string id "7" never matches the integer id 7 (a response must echo the
+		// request's id unchanged, type included).
+		return strconv.Quote(v)
 	}
 	return fmt.Sprintf("%v", id)
 }
